@@ -117,7 +117,7 @@ def concrete_variants(cls: str, preset, name: str, flags=(True, True, None)):
     d, n = out_d.getvalue(), out_n.getvalue()
     yield "delimited", d
     yield "non-delimited", n
-    frames = jwire.read_delimited(d)
+    frames = jwire.read_single(n)  # (row bytes from the non-delimited form: no length prefix)
     rows = [r for f in frames for r in f["rows"]]
     head_only = jwire.write_delimited([jwire.enc_frame(rows[:1]), jwire.enc_frame(rows[1:])])
     yield "options-only-first-frame", head_only
@@ -131,14 +131,24 @@ def run_concrete(case) -> list[tuple[str, str]]:
     seq = SEQ3 if cls == "triple" else SEQ4
     expect = T.norm_seq(seq)
     fails = []
+    import io  # noqa: PLC0415
+
+    from mc import faultio  # noqa: PLC0415
+
     for label, data in concrete_variants(cls, preset, name, tuple(case.get("flags", (True, True, None)))):
-        for api in ("generic", "rdflib"):
+        for api, source in (("generic", "bytesio"), ("generic", "raw"), ("generic", "buffered"),
+                            ("rdflib", "bytesio"), ("rdflib", "raw")):
+            src = {"bytesio": lambda: io.BytesIO(data),
+                   "raw": lambda: faultio.ScheduleRaw(data),
+                   "buffered": lambda: io.BufferedReader(faultio.ScheduleRaw(data, default=5))}[
+                       source]()
             try:
-                evs = DR.g_read(data, "flat") if api == "generic" else DR.r_read(data, "flat")
+                evs = (DR.g_read if api == "generic" else DR.r_read)(data, "flat", src=src)
                 got = DR.stmts_of(evs)
             except Exception as e:  # noqa: BLE001
-                fails.append((label, f"{label} stream (header {data[:3].hex()}, stream_name of "
-                                     f"{nlen} bytes) fails to parse via {api}: "
+                fails.append((label, f"{label} stream (header {data[:3].hex()}, {len(data)} bytes, "
+                                     f"stream_name of {nlen} bytes) from a {source} source fails "
+                                     f"to parse via {api}: "
                                      f"{type(e).__name__}: {e}"))
                 continue
             if got != expect:
@@ -146,9 +156,46 @@ def run_concrete(case) -> list[tuple[str, str]]:
     return fails
 
 
+TARGET_FRAME_LENGTHS = (127, 128, 129, 16383, 16384, 16385, 16447, 16511, 16512,
+                        2097151, 2097152, 2097153, 3000000)
+
+
+def name_len_for_frame(cls: str, preset, target: int) -> int | None:
+    """stream_name length that makes the (single) delimited frame exactly `target` bytes long."""
+    def flen(n):
+        vs = dict(concrete_variants(cls, preset, "n" * n))
+        return len(vs["non-delimited"])  # == length of the single frame
+
+    n = max(0, target - flen(0))
+    for _ in range(8):
+        f = flen(n)
+        if f == target:
+            return n
+        n = max(0, n + (target - f))
+    return None
+
+
 def concrete_shard(job) -> dict:
     lens, = job
     acc = pool.Acc()
+    if lens and lens[0] == "targets":
+        for t in lens[1:]:
+            for cls in ("triple", "quad"):
+                n = name_len_for_frame(cls, PRESETS[3], t)
+                if n is None:
+                    acc.counters["target_unreachable"] += 1
+                    continue
+                case = {"level": "stream", "cls": cls, "preset": list(PRESETS[3]), "name_len": n,
+                        "ascii": True, "flags": [True, True, None], "frame_length": t}
+                acc.evals += 5 * 5
+                acc.nontrivial += 5
+                acc.extra.setdefault("headers", set()).update(
+                    d[:3].hex() for _, d in concrete_variants(cls, PRESETS[3], "n" * n))
+                for label, msg in run_concrete(case):
+                    acc.violation({"level": "stream", "variant": label}, msg, case)
+        acc.sample({"level": "stream", "frame_lengths": list(lens[1:])}, cap=1)
+        acc.extra["headers"] = sorted(acc.extra.get("headers", ()))
+        return acc.out()
     for nlen in lens:
         for cls in ("triple", "quad"):
             for preset in PRESETS:
@@ -156,7 +203,7 @@ def concrete_shard(job) -> dict:
                     for flags in (FLAGS if nlen <= 12 else FLAGS[-1:]):
                         case = {"level": "stream", "cls": cls, "preset": list(preset),
                                 "name_len": nlen, "ascii": ascii_, "flags": list(flags)}
-                        acc.evals += 5 * 2
+                        acc.evals += 5 * 5
                         acc.nontrivial += 5
                         acc.extra.setdefault("headers", set()).update(
                             d[:3].hex() for _, d in concrete_variants(
@@ -173,6 +220,8 @@ def run(ctx) -> None:
     lens = list(range(0, 301)) + [16370, 16383, 16384] if not ctx.quick else \
         list(range(0, 140)) + [246, 247, 254, 255, 256, 374]
     cjobs = [("concrete", (lens[i::16],)) for i in range(16)]
+    tl = TARGET_FRAME_LENGTHS if not ctx.quick else TARGET_FRAME_LENGTHS[:-1]
+    cjobs += [("concrete", (["targets", t],)) for t in tl]
     merged = pool.merge(pool.pmap(_dispatch, jobs + cjobs))
     ctx.add(merged)
     both = [e["both"] for e in merged["extras"] if "both" in e]
@@ -195,7 +244,9 @@ def run(ctx) -> None:
             "(delimited: varint(L) + frame that is empty or starts with a row fitting in L; "
             "non-delimited: 0A varint(R) 0A); non-trivial = headers the grammar classifies; plus "
             "real streams for every stream_name length in both modes, re-cut with an options-only "
-            "first frame and with leading empty frames, parsed by both integrations"
+            "first frame and with leading empty frames, parsed by both integrations from BytesIO, a "
+            "non-seekable raw source and a buffered non-seekable source; plus exact first-frame "
+            "lengths at the varint boundaries 127/128, 16383/16384..16512 and 2^21"
         ),
     )
 
